@@ -6,7 +6,6 @@ import (
 
 	"safecheck/relang"
 
-	"golang.org/x/tools/go/ssa"
 )
 
 // runC18 first applies the rules written for the current spelling; when they do not recognise the code the
@@ -61,12 +60,7 @@ func c18ByLanguage(p *Program, r *Report) bool {
 			s := NewSummarizer(p, regs)
 			oe := newOutEval(p, s)
 			oe.Markers = markers
-			fr := &oframe{fn: fn, env: termEnv{}, bind: map[ssa.Value]*lx{}}
-			for i, prm := range fn.Params {
-				if isStringish(prm.Type()) {
-					fr.env[prm] = Term{Param: i}
-				}
-			}
+			fr := oe.topFrame(fn)
 			var alts []*lx
 			for _, ret := range Returns(fn) {
 				alts = append(alts, oe.strLx(ret.Results[0], ret.Block(), fr))
